@@ -30,7 +30,7 @@ ASSUMPTIONS = ['gain = largest absolute row sum of the operator extracted from a
                '(linear transforms); composed stage gains for the scattering layers', 'torch .double()/.float() semantics for buffers/parameters']
 TIMEOUT = {'quick': 900, 'thorough': 3300}
 WORKER_BUDGET = {'quick': 600, 'thorough': 2700}
-MIN_HELD = {'quick': 500, 'thorough': 2500}
+MIN_HELD = {'quick': 500, 'thorough': 43654}
 IN_KINDS = ['randn', 'dynrange', 'const', 'outlier', 'ramp', 'small']
 
 
